@@ -36,7 +36,7 @@ ASSUMPTIONS = [
 MOD = "dagrt.codegen.dag_ast"
 
 
-def check(run, P):
+def _check_main(run, P):
     run.rule("C05.sorted", "no unordered iteration inside the lowering reaches its "
              "result order", minimum=2)
     run.rule("C05.topo", "topological sort: append only when popped finished, paired "
@@ -535,3 +535,9 @@ def _walker(run, P):
     run.ob("C05.walker", la, la.node, src == ["self.lower_node(ast)", "self.emit_return()"],
            construct=f"lower_ast: {src}",
            why="the phase body is followed by the return/exit emission")
+
+
+def check(run, P):
+    _check_main(run, P)
+    from . import generic
+    generic.lints(run, P, "C05")
